@@ -76,10 +76,36 @@ theorem meetN_iv_left (a b r : Sc) (h : meetN a b = some r) : a.iv = none := by
 theorem meetN_comm (a b : Sc) : meetN a b = meetN b a := by
   cases a <;> cases b <;> simp [meetN] <;> (split <;> simp_all) <;> simp_all [eq_comm]
 
-theorem meetN_assoc (a b c : Sc) :
+/-- associativity of `meetN` for a fixed first operand (split per constructor to keep every
+lemma fast) -/
+local macro "meetN_assoc_tac" b:ident c:ident hb:ident hc:ident : tactic =>
+  `(tactic| (cases $b:ident <;> simp [Sc.iv] at $hb:ident <;> simp [meetN] <;>
+      cases $c:ident <;> simp [Sc.iv] at $hc:ident <;> simp <;> (repeat' split) <;> simp_all))
+
+theorem meetN_assoc_str (n : Nat) (b c : Sc) (hb : b.iv = none) (hc : c.iv = none) :
+    (meetN (.str n) b).bind (fun r => meetN r c) = (meetN b c).bind (fun r => meetN (.str n) r) := by
+  meetN_assoc_tac b c hb hc
+theorem meetN_assoc_bool (x : Bool) (b c : Sc) (hb : b.iv = none) (hc : c.iv = none) :
+    (meetN (.bool x) b).bind (fun r => meetN r c) = (meetN b c).bind (fun r => meetN (.bool x) r) := by
+  meetN_assoc_tac b c hb hc
+theorem meetN_assoc_null (b c : Sc) (hb : b.iv = none) (hc : c.iv = none) :
+    (meetN .null b).bind (fun r => meetN r c) = (meetN b c).bind (fun r => meetN .null r) := by
+  meetN_assoc_tac b c hb hc
+theorem meetN_assoc_tStr (b c : Sc) (hb : b.iv = none) (hc : c.iv = none) :
+    (meetN .tStr b).bind (fun r => meetN r c) = (meetN b c).bind (fun r => meetN .tStr r) := by
+  meetN_assoc_tac b c hb hc
+theorem meetN_assoc_tBool (b c : Sc) (hb : b.iv = none) (hc : c.iv = none) :
+    (meetN .tBool b).bind (fun r => meetN r c) = (meetN b c).bind (fun r => meetN .tBool r) := by
+  meetN_assoc_tac b c hb hc
+
+theorem meetN_assoc (a b c : Sc) (ha : a.iv = none) (hb : b.iv = none) (hc : c.iv = none) :
     (meetN a b).bind (fun r => meetN r c) = (meetN b c).bind (fun r => meetN a r) := by
-  cases a <;> cases b <;> simp [meetN] <;> cases c <;> simp <;>
-    (repeat' split) <;> simp_all
+  cases a <;> simp [Sc.iv] at ha
+  · exact meetN_assoc_str _ b c hb hc
+  · exact meetN_assoc_bool _ b c hb hc
+  · exact meetN_assoc_null b c hb hc
+  · exact meetN_assoc_tStr b c hb hc
+  · exact meetN_assoc_tBool b c hb hc
 
 theorem meetN_idem (a : Sc) (h : a.iv = none) : meetN a a = some a := by
   cases a <;> simp [meetN, Sc.iv] at *
@@ -106,7 +132,7 @@ theorem Sc.meet_assoc (a b c : Sc) :
     (Sc.meet a b).bind (fun r => Sc.meet r c) = (Sc.meet b c).bind (fun r => Sc.meet a r) := by
   cases hia : a.iv <;> cases hib : b.iv <;> cases hic : c.iv
   · -- no integers at all
-    have h := meetN_assoc a b c
+    have h := meetN_assoc a b c hia hib hic
     have e1 : Sc.meet a b = meetN a b := by simp [Sc.meet, hia, hib]
     have e2 : Sc.meet b c = meetN b c := by simp [Sc.meet, hib, hic]
     rw [e1, e2]
